@@ -829,7 +829,10 @@ class ModuleVistor(NodeVisitor):
                     attr.report('Docstring ignored: the variable is already documented '
                                 f'by a field in the docstring of {attr.parent.fullName() if attr.parent else "its parent"}',
                                 lineno_offset=value.lineno - (attr.linenumber or value.lineno))
-                attr.setDocstring(value)
+                    # The ignored string must not become the origin of the line numbers
+                    # reported for the body of the field, which is what is shown.
+                else:
+                    attr.setDocstring(value)
                 self.builder.currentAttr = None
         self.generic_visit(node)
 
